@@ -344,7 +344,7 @@ static int child_fit(int wfd, const FitCase& fc)
     for (int ic = 0; ic < ncov; ic++)
     {
       const CovAniso* cova = model->getCova(ic);
-      if (cova->hasRange() <= 0 || cova->isIsotropic()) continue;
+      if (cova->hasRange() == 0 || cova->isIsotropic()) continue;  // (range-less structures, hasRange() == -1, own a rotation too)
       if (!have) { ref = angles_of[ic]; have = true; continue; }
       O("option-judged:lock_samerot");
       for (size_t d = 0; d < ref.size(); d++)
@@ -911,6 +911,135 @@ VF_PART(constraint_routes)
     C.cur_case = std::to_string(id);
     one(id);
   }
+}
+
+// ================================================================================================
+// part samerot_lists: the shared-rotation lock (Option_VarioFit::setLockSamerot) on structure lists whose FIRST structure has no range of its own
+// (LINEAR, POWER, ORDER1_GC: hasRange() == -1, but they own anisotropy ratios and a rotation), on exact multi-direction variograms of a rotated
+// anisotropic model (rotation inferred, anisotropy axes different from the first variogram direction).
+//   oracle: fit reports failure OR every structure that owns a rotation (hasRange() != 0, anisotropic) has the same angle modulo 180 degrees.
+struct SamerotCase { int ilist, itheta, idirs, iopt; };
+static const char* SR_LIST_NAMES[9] = {"LINEAR+SPH", "POWER+EXP", "LINEAR+NUG+CUBIC", "NUG+LINEAR+SPH", "ORDER1_GC+SPH", "LINEAR+EXP+SPH", "POWER+SPH+SPH", "SPH+LINEAR(control)", "SPH+EXP(control)"};
+static VectorECov sr_list(int k)
+{
+  switch (k)
+  {
+    case 0: return {ECov::LINEAR, ECov::SPHERICAL};
+    case 1: return {ECov::POWER, ECov::EXPONENTIAL};
+    case 2: return {ECov::LINEAR, ECov::NUGGET, ECov::CUBIC};
+    case 3: return {ECov::NUGGET, ECov::LINEAR, ECov::SPHERICAL};
+    case 4: return {ECov::ORDER1_GC, ECov::SPHERICAL};
+    case 5: return {ECov::LINEAR, ECov::EXPONENTIAL, ECov::SPHERICAL};
+    case 6: return {ECov::POWER, ECov::SPHERICAL, ECov::SPHERICAL};
+    case 7: return {ECov::SPHERICAL, ECov::LINEAR};
+    default: return {ECov::SPHERICAL, ECov::EXPONENTIAL};
+  }
+}
+static int child_samerot(int wfd, const SamerotCase& sc)
+{
+  struct rlimit rl; rl.rlim_cur = 600; rl.rlim_max = 610; setrlimit(RLIMIT_CPU, &rl);
+  std::string outbuf;
+  auto V = [&](const std::string& key, const std::string& what) { outbuf += "V\t" + key + "\t" + what + "\n"; };
+  auto O = [&](const std::string& o) { outbuf += "O\t" + o + "\n"; };
+  defineDefaultSpace(ESpaceType::RN, 2);
+  const double thetas[3] = {35., 60., 110.};
+  double theta = thetas[sc.itheta];
+  // truth: anisotropic SPHERICAL + anisotropic LINEAR, both rotated by theta
+  std::unique_ptr<Model> truth(Model::createFromParam(ECov::SPHERICAL, 6., 1.5, 1., {6., 2.}, VectorDouble(), {theta, 0.}, nullptr, true));
+  if (!truth) { O("truth-not-built"); child_write(wfd, outbuf); return 0; }
+  truth->addCovFromParam(ECov::LINEAR, 10., 0.75, 1., {10., 3.}, VectorDouble(), {theta, 0.}, true);
+  std::vector<double> angs = sc.idirs == 0 ? std::vector<double>{0., 45., 90., 135.} : std::vector<double>{0., 60., 120.};
+  const int npas = 12; const double dpas = 0.5;
+  VarioParam vp;
+  for (double a : angs) vp.addDir(DirParam(npas, dpas, 0.5, 10., 0, 0, TEST, TEST, 0., VectorDouble(), {std::cos(a * M_PI / 180.), std::sin(a * M_PI / 180.)}));
+  std::vector<std::vector<double>> X(2), Z(1);
+  for (int j = 0; j < 3; j++) for (int i = 0; i < 3; i++) { X[0].push_back(i); X[1].push_back(j); Z[0].push_back((double)((i * 7 + j * 3) % 5)); }
+  std::unique_ptr<Db> db(make_db_xz(X, Z));
+  std::unique_ptr<Vario> vario(Vario::computeFromDb(vp, db.get()));
+  if (!vario) { O("vario-not-built"); child_write(wfd, outbuf); return 0; }
+  SpacePoint p0(VectorDouble(2, 0.));
+  double c0 = truth->eval(p0, p0, 0, 0);
+  for (int idir = 0; idir < vario->getDirectionNumber(); idir++)
+  {
+    VectorDouble cd = vario->getCodirs(idir);
+    for (int ip = 0; ip < vario->getLagNumber(idir); ip++)
+    {
+      double h = (ip + 1) * dpas;
+      SpacePoint p1(VectorDouble{h * cd[0], h * cd[1]});
+      vario->setHh(idir, 0, 0, ip, h); vario->setSw(idir, 0, 0, ip, 10.);
+      vario->setGg(idir, 0, 0, ip, c0 - truth->eval(p0, p1, 0, 0));
+    }
+  }
+  vario->setVar(2., 0, 0);
+  Option_VarioFit optvar;
+  optvar.setLockSamerot(sc.iopt != 2);
+  if (sc.iopt == 1) optvar.setFlagNoreduce(true);
+  VectorECov types = sr_list(sc.ilist);
+  std::unique_ptr<Model> model(Model::createFromEnvironment(1, 2));
+  child_write(wfd, "S\tfit\n");
+  int rc = model->fit(vario.get(), types, Constraints(), optvar, Option_AutoFit(), false);
+  child_write(wfd, "S\tchecks\n");
+  if (rc != 0) { O("fit-reports-failure"); child_write(wfd, outbuf); return 0; }
+  std::string snap; int nrot = 0; double aref = 0; bool differ = false; int nrangeless_first = 0;
+  for (int ic = 0; ic < model->getCovaNumber(); ic++)
+  {
+    const CovAniso* c = model->getCova(ic);
+    snap += std::string(c->getType().getKey()) + " sill=" + fmt(c->getSill(0, 0));
+    if (c->hasRange() == 0) { snap += "; "; continue; }
+    VectorDouble r = c->getRanges(); VectorDouble an = c->getAnisoAngles();
+    snap += " ranges=" + vstr(r) + " angle=" + fmt(an[0]) + "; ";
+    for (double v : r) if (!(v > 0) || !std::isfinite(v)) V("samerot-list:range-not-positive", "range " + fmt(v) + " in " + snap);
+    bool aniso = std::fabs(r[0] - r[1]) > 1e-6 * std::max(r[0], r[1]);
+    if (!aniso) continue;
+    if (nrot == 0 && c->hasRange() < 0) nrangeless_first = 1;
+    double a = an[0];
+    if (nrot == 0) aref = a;
+    else { double d = std::fmod(std::fabs(a - aref), 180.); d = std::min(d, 180. - d); if (d > 1e-3) differ = true; }
+    nrot++;
+  }
+  if (getenv("C17_SHOW")) fprintf(stderr, "%s\n", snap.c_str());
+  O("structures-owning-a-rotation=" + std::to_string(nrot));
+  if (sc.iopt != 2)
+  {
+    if (nrot >= 2) O(nrangeless_first ? "samerot-judged:first-rotated-structure-is-range-less" : "samerot-judged:first-rotated-structure-has-a-range");
+    if (differ) V(std::string("option:lock_samerot:different-rotations:") + (nrangeless_first ? "range-less-structure-first" : "ranged-structure-first"),
+                  "lock_samerot requested but the returned structures carry different rotations: " + snap);
+  }
+  else O(differ ? "free-rotations-differ" : "free-rotations-equal");
+  child_write(wfd, outbuf);
+  return 0;
+}
+
+VF_PART(samerot_lists)
+{
+  std::vector<SamerotCase> menu;
+  for (int l = 0; l < 9; l++) for (int t = 0; t < 3; t++) for (int d = 0; d < 2; d++) for (int o = 0; o < 3; o++)
+  {
+    if (!C.thorough() && (o == 2 || (d == 1 && t != 0))) continue;  // quick: the lock (with / without reduction), 4 directions x 3 angles + 3 directions x 1 angle
+    menu.push_back({l, t, d, o});
+  }
+  Space sp; sp.axis("case", (int)menu.size());
+  for_each_case(C, sp, [&](uint64_t id, const std::vector<int>& idx) {
+    const SamerotCase& sc = menu[idx[0]];
+    std::string kase = std::to_string(id);
+    std::string what0 = std::string("structures=") + SR_LIST_NAMES[sc.ilist] + " theta=" + std::to_string(sc.itheta == 0 ? 35 : sc.itheta == 1 ? 60 : 110) + " directions=" + (sc.idirs == 0 ? "0/45/90/135" : "0/60/120") +
+                        " option=" + (sc.iopt == 0 ? "lock_samerot" : sc.iopt == 1 ? "lock_samerot+noreduce" : "free");
+    if (C.verbose) fprintf(stderr, "case %s: %s\n", kase.c_str(), what0.c_str());
+    ChildResult r = run_child([&](int wfd) { return child_samerot(wfd, sc); }, 2400., 0, getenv("C17_SHOW") != nullptr);
+    C.eval();
+    std::string stage = "setup"; bool judged = false;
+    std::stringstream ss(r.data); std::string line;
+    while (std::getline(ss, line))
+    {
+      if (line.size() < 2) continue;
+      if (line[0] == 'S') stage = line.substr(2);
+      else if (line[0] == 'O') { std::string o = line.substr(2); C.outcome(o); if (o.rfind("samerot-judged", 0) == 0) judged = true; }
+      else if (line[0] == 'V') { size_t t = line.find('\t', 2); C.violation(line.substr(2, t - 2), line.substr(t + 1) + " :: " + what0, kase); }
+    }
+    if (!r.clean() || r.code != 0) { C.violation("samerot-list:crash:" + stage + ":" + r.describe(), "the child died (" + r.describe() + ") during " + stage + ": " + what0, kase); return; }
+    if (judged) C.nontrivial(id + 2000000011ULL);
+    if (id % 13 == 0) C.sample("{\"id\":" + std::to_string(id) + ",\"case\":" + jstr(what0) + ",\"result\":" + jstr(r.data.substr(0, 300)) + "}");
+  });
 }
 
 // the small parts first: under a deadline the truncation falls on the largest menu
